@@ -41,6 +41,14 @@ ASSUMPTIONS = [
     "map the default to the default and return boxed values",
     "unflattenRanks is applied only to results of flattenRanks with the invertible styles tuple and pair",
     "'restores the original' is judged on content (point -> non-default value), not Tensor.__eq__",
+    "second-generation programs (mc/compose.py): as a second step flattenRanks with absolute / linear / relative only on "
+    "ranks holding int coordinates, linear only with a declared shape, relative only directly after the relative-coordinate "
+    "split of the same rank (what the style is documented for); a program whose flatten would have to merge two stored "
+    "elements is skipped (ValueError by design); swizzleRanks is not applied to tensors holding a list-named (flattened) "
+    "rank (rank_ids is documented as a list of strings); a split addressed with rankid= and a depth= naming another rank "
+    "splits the rank named by rankid (documented: rankid overrides depth)",
+    "'and nothing else' for a chain of transforms: after every step the step's operand and every earlier tensor of the "
+    "chain equal the snapshot taken when they were made (rank ids, authoritative shape, content, stored coords/payloads)",
 ]
 
 GROUPS = ("swizzle", "flatten", "merge", "split", "update")
@@ -526,7 +534,9 @@ def run(ctx):
                 ("T3(2,2,2)", allf, GROUPS, None),
                 ("T4c(2,2,2,2;<=4|>=15)", ("ts", "f"), GROUPS, 900)]
     only = getattr(ctx, "only", None)
+    from mc import compose as _cd
     ctx.bounds = {
+        "compose": _cd.describe(q),
         "universes": [p[0] + " as " + "/".join(p[1]) for p in plan],
         "forms": "ts = Tensor.fromFiber with declared shape, te = Tensor.fromFiber with estimated shape, f = raw fiber "
                  "tree with Fiber(shape=); the empty tree additionally as Tensor(rank_ids=..., shape=...) (tn) and "
